@@ -1,0 +1,10 @@
+//go:build !verif && !no_workceptor
+// +build !verif,!no_workceptor
+
+package workceptor
+
+// Verification hooks (build tag "verif"). With the tag off these are empty and inlined away.
+
+func verifPoint(_ string, _ string) {}
+
+func verifStatusWrite(_ string, _ string, _ bool, _ *StatusFileData, _ *StatusFileData) {}
